@@ -130,6 +130,8 @@ Section Reader.
         | None => skip_k [10; 13; 10] r3 (fun _ => PH_ok s0 0 sig 0)
         end
       else
+        (* a data chunk is verified when the header after it arrives, and only if it declared a signature *)
+        if (match sig with [] => true | _ => false end) then PH_err E_SigMismatch else
         skip_k [10] r3 (fun _ =>
         match index_crlf (skipn skip header) O with
         | None => PH_err E_Panic     (* unreachable: a CRLF was just read *)
